@@ -48,6 +48,13 @@ fn prepare(name: &str, wasm: &[u8], pass: Pass, seed: u64, rounds: usize, gas: u
         Err(p) => return Err(("C02:emit-panic".into(), format!("emit panicked: {} | only: {}", &p[..p.len().min(120)], only))),
     };
     let b = decode::decode(&bytes).map_err(|e| ("C02:invalid-output".to_string(), format!("{} | only: {}", e, only)))?;
+    // the input validates (and instantiates); an output that does not validate cannot be instantiated at
+    // all, whatever its functions would compute: that is a difference in behaviour, not only of C02
+    if let Err(e) = decode::validate(&bytes, decode::walrus_features(false)) {
+        let prop = std::env::var("VERIF_PROPERTY").unwrap_or_default();
+        let key = if prop == "C01" || prop == "C06" { format!("{}:output-does-not-validate", prop) } else { "C02:invalid-output".to_string() };
+        return Err((key, format!("the input validates, the output does not and so cannot be instantiated: {} | only: {}", e, only)));
+    }
     let ta = modtext::module_text(&a, false, false);
     let tb = modtext::module_text(&b, false, false);
     let corr = if pass == Pass::None {
